@@ -4,8 +4,11 @@
 set -e
 P="$1"; S="$2"; WT=/tmp/seedwt/$P$S
 mkdir -p /tmp/seedwt
-BASE=$(git -C /repo log --format='%H %s' | grep -v ' verif-hook:' | head -1 | cut -d' ' -f1)
+BASE=$(git -C /repo rev-parse HEAD)
 git -C /repo worktree add --detach -f "$WT" "$BASE" >/dev/null 2>&1
+# the agent must not see the contract files (they say what the checks can detect): remove them in a scratch commit
+# on the detached HEAD of the worktree; diffs the agent delivers are relative to that commit and apply to /repo as is
+(cd "$WT" && find . -name zz_verif_contracts.go -print0 | xargs -0 git rm -q --ignore-unmatch && git -c user.name=seed -c user.email=seed@example.invalid commit -q -m "seed base (contract files removed)") >/dev/null 2>&1
 python3 - "$P" "$WT" <<'PY'
 import json,sys
 p,wt=sys.argv[1:3]
